@@ -25,8 +25,8 @@ type Defect struct {
 // defect kinds per version family
 var defectKinds = map[string][]string{
 	"2.0": {"illegal-value", "swap-adjacent", "move", "dup-in-place", "dup-distant", "unknown-insert", "unknown-substitute", "cut", "remove-middle"},
-	"3.0": {"header-remove", "header-other", "header-byte", "header-lower", "header-truncate", "header-prefix", "illegal-value", "remove-base", "duplicate", "unknown-insert", "unknown-substitute-optional"},
-	"3.1": {"header-remove", "header-other", "header-byte", "header-lower", "header-truncate", "header-prefix", "illegal-value", "remove-base", "duplicate", "unknown-insert", "unknown-substitute-optional"},
+	"3.0": {"header-remove", "header-other", "header-byte", "header-lower", "header-truncate", "header-prefix", "illegal-value", "remove-base", "remove-base-set", "duplicate", "unknown-insert", "unknown-substitute-optional"},
+	"3.1": {"header-remove", "header-other", "header-byte", "header-lower", "header-truncate", "header-prefix", "illegal-value", "remove-base", "remove-base-set", "duplicate", "unknown-insert", "unknown-substitute-optional"},
 	"4.0": {"header-remove", "header-other", "header-byte", "header-lower", "header-truncate", "header-prefix", "illegal-value", "swap-adjacent", "move", "dup-in-place", "dup-distant", "unknown-insert", "unknown-substitute", "cut", "remove-middle"},
 }
 
@@ -110,6 +110,35 @@ func (d Defect) build() (s string, want string, ok bool) {
 			return "", "", false
 		}
 		return join(removeAt(el, d.Pos)), "missing:" + abvAt(d.Pos), true
+	case "remove-base-set": // v3: every mandatory metric whose bit is set in Pos (bit j = j-th mandatory metric in specification order) is removed
+		var mand []string
+		for _, m := range v.Metrics {
+			if m.Mandatory {
+				mand = append(mand, m.Abv)
+			}
+		}
+		if d.Pos <= 0 || d.Pos >= 1<<len(mand) {
+			return "", "", false
+		}
+		first, gone := "", map[string]bool{}
+		for j, a := range mand {
+			if d.Pos>>j&1 == 1 {
+				gone[a] = true
+				if first == "" {
+					first = a
+				}
+			}
+		}
+		var e []string
+		for i := range el {
+			if !gone[abvAt(i)] {
+				e = append(e, el[i])
+			}
+		}
+		if len(e) == 0 {
+			return "", "", false // nothing left after the header: an empty element, not asserted (see the assumption above)
+		}
+		return join(e), "missing:" + first, true
 	case "duplicate": // v3: a copy of element Pos (value Arg) inserted at Pos2
 		if !in(d.Pos, 0, n) || !in(d.Pos2, 0, n+1) {
 			return "", "", false
@@ -374,6 +403,8 @@ func drawDefect(rt *rapid.T) Defect {
 			}
 		}
 		d.Pos = idx[rapid.IntRange(0, len(idx)-1).Draw(rt, "pos")]
+	case "remove-base-set":
+		d.Pos = rapid.IntRange(1, 255).Draw(rt, "mask")
 	case "duplicate":
 		d.Pos = pos(0, n, "pos")
 		d.Pos2 = pos(0, n+1, "pos2")
@@ -505,7 +536,7 @@ func checkGetSetErr(c GetSetErr) error {
 }
 
 func TestC18(t *testing.T) {
-	h := start(t, "C18", "a valid vector (C06 generator) with exactly one defect of a labelled kind at a generated position (header: removed / other version's / one byte changed / lower-cased / truncated / prefixed; illegal value; v3: base metric removed, metric duplicated anywhere, unknown abbreviation inserted or substituted for an optional one; v2/v4: adjacent swap, move, in-place and distant duplication, unknown abbreviation inserted or substituted, cut inside a group), expected error known by construction; plus Get/Set with unknown abbreviations and illegal values (the returned error is inspected again after later failing calls); every case is a rejected near-miss, distinct by defective string")
+	h := start(t, "C18", "a valid vector (C06 generator) with exactly one defect of a labelled kind at a generated position (header: removed / other version's / one byte changed / lower-cased / truncated / prefixed; illegal value; v3: base metric removed, any subset of the base metrics removed (the first missing one in specification order is named), metric duplicated anywhere, unknown abbreviation inserted or substituted for an optional one; v2/v4: adjacent swap, move, in-place and distant duplication, unknown abbreviation inserted or substituted, cut inside a group), expected error known by construction; plus Get/Set with unknown abbreviations and illegal values (the returned error is inspected again after later failing calls); every case is a rejected near-miss, distinct by defective string")
 	h.R.Assume("only the error classes the statement names unambiguously are asserted; empty elements, a trailing '/', bytes after an intact v4 header and multi-defect strings are left to C01 (rejection only)")
 	n := env.Scale(120000, 300000)
 	if env.Shards > 1 {
@@ -513,6 +544,7 @@ func TestC18(t *testing.T) {
 	}
 	_, f3known := h.known["F3"]
 	seen := map[string]bool{}
+	masks := map[string]map[int]bool{"3.0": {}, "3.1": {}}
 	check := func(d Defect) error {
 		err := checkDefectRaw(d)
 		if err == errF3 {
@@ -544,7 +576,9 @@ func TestC18(t *testing.T) {
 			label += " (not a defect)"
 		}
 		_, el := elemsOf(d.Base)
-		if ok && d.Pos < len(el) {
+		if ok && d.Kind == "remove-base-set" {
+			masks[v.Name][d.Pos] = true
+		} else if ok && d.Pos < len(el) {
 			a, _, _ := strings.Cut(el[d.Pos], ":")
 			seen[v.Name+"/"+d.Kind+"/"+a] = true
 		}
@@ -555,6 +589,25 @@ func TestC18(t *testing.T) {
 		return d
 	}, check)
 	if env.Shards <= 1 {
+		// exhaustive grid: every non-empty subset of the eight v3 base metrics removed from three layouts (base only,
+		// every metric, every metric in reverse order) of both v3 versions; *ErrMissing must name the first missing
+		// metric in specification order
+		const b3 = "AV:N/AC:L/PR:N/UI:N/S:U/C:H/I:H/A:H"
+		const f3 = b3 + "/E:F/RL:O/RC:C/CR:H/IR:M/AR:L/MAV:A/MAC:H/MPR:L/MUI:R/MS:C/MC:L/MI:N/MA:H"
+		el := strings.Split(f3, "/")
+		rev := make([]string, len(el))
+		for i := range el {
+			rev[len(el)-1-i] = el[i]
+		}
+		bodies := []string{b3, f3, strings.Join(rev, "/")}
+		Enum(h, "defect", 2*len(bodies)*255, func(i int) Defect {
+			vi, r := 1+i/(len(bodies)*255), i%(len(bodies)*255)
+			return Defect{Base: gen.Valid{Ver: vi, S: spec.Versions[vi].Header + bodies[r/255]}, Kind: "remove-base-set", Pos: 1 + r%255}
+		}, nil, check)
+		if !h.replaying() {
+			h.R.AddExact(int64(2*len(bodies)*255), int64(2*len(bodies)*255-2))
+			h.R.Count("exhaustive: every non-empty subset of the v3 base metrics removed (255) x 3 layouts x 2 versions", int64(2*len(bodies)*255))
+		}
 		// exhaustive grid: Set with every pooled abbreviation that is not a metric of the version x every pooled
 		// value (an early exit on one particular value, taken before the abbreviation is looked at, is in here),
 		// and Get with every such abbreviation
@@ -623,7 +676,7 @@ func TestC18(t *testing.T) {
 	missing := 0
 	for _, v := range spec.Versions {
 		for _, k := range defectKinds[v.Name] {
-			if strings.HasPrefix(k, "header") || k == "cut" || k == "unknown-insert" || k == "dup-distant" || k == "swap-adjacent" || k == "move" || k == "remove-middle" {
+			if strings.HasPrefix(k, "header") || k == "cut" || k == "remove-base-set" || k == "unknown-insert" || k == "dup-distant" || k == "swap-adjacent" || k == "move" || k == "remove-middle" {
 				continue
 			}
 			for _, m := range v.Metrics {
@@ -637,5 +690,6 @@ func TestC18(t *testing.T) {
 			}
 		}
 	}
+	h.R.Extra("missing_base_subsets", fmt.Sprintf("random part: v3.0 %d of 255 subsets of removed base metrics drawn, v3.1 %d of 255; the grid has all 255 x 3 layouts x 2 versions", len(masks["3.0"]), len(masks["3.1"])))
 	h.R.Extra("defect_kind_x_metric_coverage", fmt.Sprintf("%d (version, kind, metric) combinations drawn, %d missing", len(seen), missing))
 }
